@@ -6,6 +6,10 @@ VERIF = os.path.dirname(os.path.dirname(os.path.abspath(__file__)))
 SPECS = os.path.join(VERIF, "specs")
 HARNESS = os.path.join(VERIF, "harness")
 REPO = "/repo"
+# measurement aid only (bin/seedmatrix_par.sh): run the checks against another checkout of the library -- a scratch worktree with a seeded
+# change applied -- so that several seeded changes can be measured at the same time.  The registered commands never set it: they build
+# from /repo's working tree and write /verif/evidence.
+ALT_REPO = os.environ.get("VERIF_REPO")
 CORES = os.cpu_count() or 4
 
 GOENV = dict(os.environ, GOFLAGS="-mod=mod", GOPROXY="off", GOSUMDB="off", GOTOOLCHAIN="local", CGO_ENABLED="0")
@@ -50,7 +54,14 @@ class Ctx:
         env = dict(GOENV)
         if race:
             env["CGO_ENABLED"] = "1"
-        p = subprocess.run(cmd, cwd=HARNESS, env=env, capture_output=True, text=True)
+        src = HARNESS
+        if ALT_REPO:
+            src = os.path.join(self.scratch, "harness-src")
+            shutil.copytree(HARNESS, src, dirs_exist_ok=True)
+            gm = open(os.path.join(src, "go.mod")).read().replace("=> /repo", "=> " + ALT_REPO)
+            open(os.path.join(src, "go.mod"), "w").write(gm)
+            shutil.copy(os.path.join(ALT_REPO, "go.sum"), os.path.join(src, "go.sum"))
+        p = subprocess.run(cmd, cwd=src, env=env, capture_output=True, text=True)
         if p.returncode != 0:
             # a tree that does not compile is not a verdict about the property
             raise Inconclusive("harness does not build against /repo:\n" + p.stderr[-3000:])
@@ -184,8 +195,9 @@ class Ctx:
             c["samples"] = ["(no sample recorded)"]
         ev = dict(property_id=self.prop, tier=self.tier, seed=self.seed, level=self.level, coverage=c,
                   assumptions=self.assumptions, wall_s=round(time.time() - self.t0, 1), violations=len(self.violations))
-        os.makedirs(os.path.join(VERIF, "evidence"), exist_ok=True)
-        with open(os.path.join(VERIF, "evidence", self.prop + ".json"), "w") as f:
+        evdir = os.path.join(VERIF, "evidence") if not ALT_REPO else os.path.join(self.scratch, "evidence")
+        os.makedirs(evdir, exist_ok=True)
+        with open(os.path.join(evdir, self.prop + ".json"), "w") as f:
             json.dump(ev, f, indent=1, default=str)
         print("%s %s: states=%d transitions=%d traces/behaviours replayed=%d evaluations=%d nontrivial=%d violations=%d wall=%.0fs" % (
             self.prop, self.tier, c["states"], c["transitions"], c["traces_validated_against_impl"], c["evaluations"],
